@@ -13,4 +13,4 @@ for f in /tmp/st/verif/replays/$PROP-*.json; do [ -f "$f" ] && python3 -c "
 import json,sys
 d=json.load(open('$f'))
 print('  replay:', d.get('kind'), (d.get('line') or '')[:200], d.get('verdict'), str(d.get('broken'))[:300])"; done
-rm -rf /tmp/st/verif/replays
+#rm -rf /tmp/st/verif/replays
